@@ -319,6 +319,9 @@ struct_property!(C03, "C03", "tape -> unsat-heavy universe + hard problem (+ hin
 pub struct C04 {
     pub params: Params,
     pub stage: &'static str,
+    /// the provider's sort_candidates calls back into the SolverCache (dependencies of the
+    /// candidates it ranks, candidates of the packages those mention), always asynchronously
+    pub reentrant: bool,
 }
 
 impl C04 {
@@ -329,13 +332,27 @@ impl C04 {
     fn check(&self, sc: &StructCase, c: &Case, rep: &mut CaseReport) {
         rep.evaluations = 1;
         let cfg = RunCfg {
-            runtime: sc.rt.clone(),
+            runtime: if self.reentrant && matches!(sc.rt, Runtime::Sync) {
+                Runtime::Async { policy: crate::sched::Policy::Lifo, immediate: vec![] }
+            } else {
+                sc.rt.clone()
+            },
             labels: false,
             render: true,
+            sort_probe: if !self.reentrant {
+                crate::provider::SortProbe::Off
+            } else if sc.extra.first().map_or(false, |v| v & 1 == 1) {
+                crate::provider::SortProbe::DepsAbandon
+            } else {
+                crate::provider::SortProbe::Deps
+            },
             ..Default::default()
         };
         let res = run_once(&c.u, &c.problem, &cfg);
         rep.labels.push(res.outcome.kind());
+        if self.reentrant {
+            rep.labels.push("re-entrant-sort");
+        }
         let (nf, feats) = feature_count(&c.u, &c.problem);
         for f in feats {
             rep.labels.push(f);
